@@ -39,6 +39,7 @@ FLOORS = {'schedules': 200, 'evaluate_outcomes': 2000, 'snapshots': 50,
           'failing_evaluations_before_reassignment': 30,
           'numeric_state_outcomes': 100,
           'constant_consumption_outcomes': 100,
+          'default_after_own_namespace': 10,
           'models_with_equal_constants_of_different_type': 20}
 ANCHOR_FUNCS = {
     'xlcalculator/evaluator.py': ['Evaluator.evaluate',
@@ -99,10 +100,16 @@ def leak_run(ctx, model, addrs, rounds, label):
             # application serving one request per Evaluator)
             e2 = Evaluator(model)
             for a in addrs:
-                e2.evaluate(a)
+                try:
+                    e2.evaluate(a)
+                except RuntimeError:
+                    pass
             return
         for a in addrs:
-            ev.evaluate(a)
+            try:
+                ev.evaluate(a)
+            except RuntimeError:      # a cell that fails is asked again too
+                pass
     # warm up (first evaluations create caches of bounded size, e.g. inspect)
     for _ in range(50):
         one_round()
@@ -489,6 +496,39 @@ def run(ctx):
                          monitor='schedule-independence',
                          group='numeric-state:' + a)
 
+    # ---- an application's own namespace belongs to ITS evaluator: an Evaluator
+    # whose namespace replaces a builtin (SUM -> a constant) evaluates first;
+    # evaluators created afterwards without a namespace compute the library's
+    # results, over the same model and over a fresh one ------------------------
+    if ctx.shard in (8, 9) or thorough:
+        from xlcalculator.xlfunctions import xl as _xl
+        cells_ns = {'A1': 1, 'A2': 2, 'A3': 3, 'B1': '=SUM(A1:A3)',
+                    'B2': '=MAX(A1:A3)+SUM(A1,A2)', 'B3': '=IF(A1>0,SUM(A2:A3),0)'}
+        want_ns = {'B1': 6.0, 'B2': 6.0, 'B3': 5.0}
+        model_ns = subject.compile_dict(cells_ns)
+        ns = dict(_xl.FUNCTIONS)
+        ns['SUM'] = lambda *a: 1000
+        ns['MAX'] = lambda *a: -1
+        ev_own = Evaluator(model_ns, namespace=ns)
+        for a in want_ns:
+            subject.outcome_of(lambda: ev_own.evaluate(f'Sheet1!{a}'))
+        for which, mdl in (('the same model', model_ns),
+                           ('a fresh model', subject.compile_dict(cells_ns))):
+            ev_def = Evaluator(mdl)
+            for a, w in want_ns.items():
+                got = subject.outcome_of(lambda: ev_def.evaluate(f'Sheet1!{a}'))
+                ctx.event('evaluate_outcomes')
+                ctx.event('default_after_own_namespace')
+                if got != ('value', ('num', w)):
+                    ctx.fail(f'{a} ({cells_ns[a]}) evaluated by a default '
+                             f'Evaluator over {which}, created after another '
+                             f'Evaluator had been given a namespace that '
+                             f'replaces SUM and MAX: {got}, expected {w}',
+                             {'cells': cells_ns, 'cell': a, 'observed': got,
+                              'reference': w},
+                             monitor='evaluator-independence',
+                             group='namespace-leak')
+
     # ---- constants are never consumed: a sum over hundreds of cells whose
     # first cell holds a library Number object, texts that begin with an
     # apostrophe - every cell gives the same outcome however often and in
@@ -631,6 +671,11 @@ def run(ctx):
                            'Sheet1!B1': '=Data!A1*2'}),
             ('text', {'A1': 'ab', 'B1': '=A1&"c"', 'C1': '=LEN(B1)'}),
             ('error', {'A1': 0, 'B1': '=1/A1', 'C1': '=ISERROR(B1)'}),
+            # cells that FAIL because a formula cell they refer to fails (the
+            # failure travels up a chain), asked again and again
+            ('failing-chain', {'A1': 1, 'A3': '=NOSUCHFUNCTION(A1)',
+                               'A2': '=A3*2', 'B1': '=A2+1', 'B2': '=A2&"x"',
+                               'B3': '=SUM(A1:A2)'}),
             # error values that travel: inside a range given to an
             # aggregate, through IF/AND, as a literal in the formula
             ('error-in-range', {'A1': 0, 'B1': '=1/A1', 'B2': 2,
